@@ -1134,3 +1134,7 @@ Proof.
     destruct by_; [discriminate|]. simpl. repeat split. left. reflexivity.
   - simpl. repeat split. destruct rk; simpl; auto.
 Qed.
+
+(** leaseBatchLimit: with a positive MaxLeaseBatch the gRPC server uses the same limit as the HTTP handler *)
+Lemma grpc_pcfg_id pc : 0 < p_max_lease_batch pc -> grpc_pcfg pc = pc.
+Proof. intros H. unfold grpc_pcfg. apply Z.ltb_lt in H. rewrite H. destruct pc; reflexivity. Qed.
